@@ -123,6 +123,9 @@ pub const NEAR_KINDS: &[&str] = &[
     "result-payload-type",
     "substruct-nested-field-type",
     "stmt-match-scrutinee-pattern-type",
+    "coalesce-never-hole-result",
+    "coalesce-never-hole-option",
+    "if-never-hole-result",
 ];
 
 const INTS: &[i64] = &[
@@ -1028,6 +1031,24 @@ impl<'a> Gen<'a> {
                 let tgt = self.add_struct(vec![(fa, Ty::Opt(Box::new(t2)))]);
                 let tn = sname(self, tgt);
                 self.add_fn(vec![("q".into(), Ty::Struct(src))], Ty::Struct(tgt), format!("return q substruct {tn}"));
+            }
+            k @ ("coalesce-never-hole-result" | "coalesce-never-hole-option" | "if-never-hole-result") => {
+                // a `never` slot below the top level (`Some(Ok(1))`, `Some(None)`, `Ok(1)`) is filled in
+                // by the other operand / branch; the value bound from that slot is then used as an int
+                let ft = if self.rng.chance(1, 2) { Ty::Str } else { Ty::Bool };
+                let fill = if mistyped { self.literal(&ft) } else { self.int_lit().to_string() };
+                let body = match k {
+                    "coalesce-never-hole-result" => format!(
+                        "let o = if (q) {{ : Some(Ok(1)) }} else {{ : None }}\nlet r = ((o) or (Err({fill})))\nmatch (r) {{\nOk(v) => {{\nreturn v\n}}\nErr(e) => {{\nreturn saturating_add(e, 1)\n}}\n}}\nreturn 0"
+                    ),
+                    "coalesce-never-hole-option" => format!(
+                        "let o = if (q) {{ : Some(None) }} else {{ : None }}\nlet r = ((o) or (Some({fill})))\nmatch (r) {{\nSome(w) => {{\nreturn saturating_add(w, 1)\n}}\nNone => {{\nreturn 0\n}}\n}}\nreturn 0"
+                    ),
+                    _ => format!(
+                        "let r = if (q) {{ : Ok(1) }} else {{ : Err({fill}) }}\nmatch (r) {{\nOk(v) => {{\nreturn v\n}}\nErr(e) => {{\nreturn saturating_add(e, 1)\n}}\n}}\nreturn 0"
+                    ),
+                };
+                self.add_fn(vec![("q".into(), Ty::Bool)], Ty::Int, body);
             }
             _ => {
                 // match statement: literal pattern of another type than the scrutinee
